@@ -59,6 +59,7 @@ class Config:
     sched: dict[str, str] = field(default_factory=dict)  # param -> fn name
     grad_scaler: float | None = None
     sgd_lr: float = 0.05
+    union: int = 1                 # W=1 run on the union of `union` rank batches
 
     def to_json(self) -> dict[str, Any]:
         return asdict(self)
@@ -181,6 +182,12 @@ def out_shape(name: str) -> tuple[int, ...]:
 
 def make_batch(cfg: Config, seed: int, rank: int, it: int, mb: int,
                dtype: torch.dtype) -> tuple[torch.Tensor, torch.Tensor]:
+    if cfg.union > 1:
+        one = Config(**{**asdict(cfg), 'union': 1})
+        parts = [make_batch(one, seed, r, it, mb, dtype)
+                 for r in range(cfg.union)]
+        return (torch.cat([p[0] for p in parts]),
+                torch.cat([p[1] for p in parts]))
     g = torch.Generator().manual_seed(
         7919 * seed + 104729 * rank + 1299709 * it + 15485863 * mb + 17,
     )
